@@ -963,14 +963,31 @@ func indexPatterns(body, i *Term) [][]*Term {
 				if x.op == "var" && x != i {
 					ok = false
 				}
-				if x.op == "forall" || x.op == "exists" {
+				switch x.op {
+				case "forall", "exists", "ite", "and", "or", "not", "=>", "=", "<", "<=":
 					ok = false
 				}
 				for _, a := range x.args {
 					chk(a)
 				}
 			}
+			var chkGround func(x *Term)
+			seenG := map[int]bool{}
+			chkGround = func(x *Term) {
+				if seenG[x.id] || !ok {
+					return
+				}
+				seenG[x.id] = true
+				switch x.op {
+				case "forall", "exists", "ite", "and", "or", "not", "=>":
+					ok = false
+				}
+				for _, a := range x.args {
+					chkGround(a)
+				}
+			}
 			chk(t)
+			chkGround(t)
 			if ok && len(pats) < 6 {
 				pats = append(pats, []*Term{t})
 			}
